@@ -439,11 +439,14 @@ class Sim(object):
         self.current = main
         old = sys.gettrace()
         sys.settrace(self._tracer)
+        prev_active = ACTIVE['sim']
+        ACTIVE['sim'] = self
         try:
             return fn()
         finally:
             sys.settrace(old)
             self.shutdown()
+            ACTIVE['sim'] = prev_active
             self.run.steps += self.steps
             self.run.switches += self.switches
             self.run.sim_time += self.now
@@ -520,6 +523,56 @@ class SimLock(object):
 
     def locked(self):
         return self.owner is not None
+
+    def __enter__(self):
+        self.acquire()
+        return self
+
+    def __exit__(self, *a):
+        self.release()
+
+
+ACTIVE = {'sim': None}
+
+
+class HybridLock(object):
+    """What the code under test gets from `threading.Lock()` when that name is rebound (seams.ThreadingProxy):
+    a simulated lock while a Sim is running its main task, a real lock otherwise.  A lock is only ever used in one
+    of the two modes during a run."""
+
+    _count = [0]
+
+    def __init__(self):
+        HybridLock._count[0] += 1
+        self.name = 'hlock%d' % HybridLock._count[0]
+        self._real = threading.Lock()
+        self._sim_lock = None
+        self._sim = None
+
+    def _mode(self):
+        sim = ACTIVE['sim']
+        if sim is None or sim.shut:
+            return None
+        if self._sim is not sim:
+            self._sim = sim
+            self._sim_lock = SimLock(sim, self.name)
+        return self._sim_lock
+
+    def acquire(self, blocking=True, timeout=-1):
+        lk = self._mode()
+        if lk is None:
+            return self._real.acquire(blocking, timeout)
+        return lk.acquire(blocking, timeout)
+
+    def release(self):
+        lk = self._mode()
+        if lk is None or (lk.owner is None and self._real.locked()):
+            return self._real.release()
+        return lk.release()
+
+    def locked(self):
+        lk = self._mode()
+        return self._real.locked() if lk is None else lk.locked()
 
     def __enter__(self):
         self.acquire()
